@@ -43,6 +43,11 @@ ASSUMPTIONS = [
     "simulation in float16/bfloat16 that the backend refuses is counted as unsupported and the sequence is cut there",
     "derived quantities are checked for float32/float64 final states (models cast to that dtype by the harness)",
 ]
+ANCHORS = ['pfhedge.instruments.primary.base:BasePrimary.to',
+           'pfhedge.instruments.primary.base:BasePrimary.register_buffer',
+           'pfhedge.instruments.primary.base:BasePrimary._parse_to',
+           'pfhedge.instruments.derivative.base:BaseDerivative.to',
+           'pfhedge.stochastic._utils:cast_state']
 DECIDING = ["state_machine", "derived.dtype", "reject.int_dtype"]
 REQUIRED_BRANCHES = ["op.simulate_after_cast", "op.cast_after_simulate", "op.to_instrument", "op.register_buffer", "op.set_default", "derivative.alias"]
 
